@@ -156,8 +156,28 @@ static std::vector<double> run(unsigned n, unsigned extraEdges) {
   alg.freeAssociatedObjects();
   return out;
 }
+// a graph with two components: the ideal-distance rows across components must not depend on what the heap held before
+static std::vector<double> run2(bool pollute) {
+  if (pollute) { std::vector<double*> bufs; for (int k = 0; k < 64; ++k) { size_t len = 4 + (k % 13); double *b = new double[len]; for (size_t i = 0; i < len; ++i) b[i] = 7.0 + k; bufs.push_back(b); }
+    for (size_t k = 0; k < bufs.size(); ++k) delete[] bufs[k]; }
+  std::vector<vpsc::Rectangle*> rs; std::vector<Edge> es;
+  for (unsigned i = 0; i < 8; ++i) rs.push_back(new vpsc::Rectangle(15.0 * i, 15.0 * i + 10, 9.0 * (i % 3), 9.0 * (i % 3) + 10));
+  for (unsigned i = 0; i < 3; ++i) { es.push_back(Edge(i, i + 1)); es.push_back(Edge(4 + i, 5 + i)); }
+  ConstrainedFDLayout alg(rs, es, 50);
+  alg.run();
+  std::vector<double> out;
+  for (unsigned i = 0; i < 8; ++i) { out.push_back(rs[i]->getCentreX()); out.push_back(rs[i]->getCentreY()); }
+  alg.freeAssociatedObjects();
+  return out;
+}
 int main() {
   int bad = 0;
+  {
+    std::vector<double> a = run2(false), b = run2(true), c = run2(true);
+    for (size_t i = 0; i < a.size(); ++i)
+      if (!(std::fabs(a[i] - b[i]) <= 1e-9) || !(std::fabs(a[i] - c[i]) <= 1e-9)) {
+        printf("layout of two disjoint paths: coordinate %zu is %.17g, %.17g, %.17g in three equal calls with different heap contents in between\n", i, a[i], b[i], c[i]); bad++; break; }
+  }
   for (unsigned n = 2; n <= 7; ++n) {
     std::vector<double> a = run(n, 1);
     run(n + 1, 2);                       // unrelated work in between
@@ -328,6 +348,15 @@ def jobs(tier):
     js.append(Job("bends_translation_invariance", "D", spec, "h_bends_translation", cxx=bt_cxx, defines=["JOB_bends_translation", "TB=%d" % (1024 if tier == "quick" else 1048576)], slices=hb,
                   domain="integer-valued coordinates and offsets with |v| <= %s (all sums exact), all 16 direction pairs, curr != dest" % ("2^10" if tier == "quick" else "2^20"),
                   expect=[r'h_bends_translation\.assertion'], flags=["--sat-solver", "cadical"], backend="sat:cadical"))
+    # ---------------- the ideal-distance rows are fully written (job of the C17 check, run here as well): an entry dijkstra leaves unwritten is heap garbage
+    spec17 = importlib.util.spec_from_file_location("jobs_C17_for_C20", os.path.join(VERIF, "contracts", "C17", "jobs.py"))
+    m17 = importlib.util.module_from_spec(spec17); spec17.loader.exec_module(m17)
+    for j in m17.jobs(tier):
+        if j.name == "dijkstra_writes_every_entry":
+            j.name = "distance_row_fully_written"
+            j.replay = replay_layout
+            j.note = (j.note + " " if j.note else "") + "[job of the C17 check, run here as well: johnsons hands dijkstra rows from a bare new T[n]]"
+            js.append(j)
     return js
 
 
@@ -342,6 +371,7 @@ ASSUMPTIONS = [
     "symmetry/translation obligations exist for two kernels only: transposition symmetry of the A* turn-pruning block, translation invariance of bends on integer-valued coordinates",
     "offsetDir: the declaration of `random` is taken verbatim from cola.h and the frame condition is checked by goto-instrument's assigns instrumentation; sqrt is an "
     "uninterpreted function there; getNext is assumed as `seed' = f(seed)` for an uninterpreted f (its enforced contract is the instance f = the documented LCG step)",
+    "distance_row_fully_written is C17's BOUNDED dijkstra job (3 nodes): an entry of the distance row that dijkstra does not write is heap garbage (johnsons allocates rows with a bare new T[n])",
     "NOT decided (residue): bit-identical whole routes/layouts, scene symmetries and translation invariance of whole routes, permutation independence of VPSC, uninitialised reads outside the constructors covered by C15",
 ]
 EXPLANATION = ("Value-determinism of the ordering kernels through which allocation addresses could reach results: each comparator's result is proved to be a stated function of "
